@@ -390,12 +390,14 @@ def build():
             "level_claimed": {"category": "other",
                               "text": c["text"] + ((" " + SECOND_PASS[pid][0]) if SECOND_PASS.get(pid, ("",))[0] else "")
                               + ((" " + THIRD_PASS[pid][0]) if pid in THIRD_PASS else "")
-                              + ((" " + FOURTH_PASS[pid][0]) if pid in FOURTH_PASS else ""),
-                              "design_ref": c["design"] + (", 9.5" if "9.5" not in c["design"] else "") + ", 9.8, 9.9"},
+                              + ((" " + FOURTH_PASS[pid][0]) if pid in FOURTH_PASS else "")
+                              + ((" " + FIFTH_PASS[pid][0]) if pid in FIFTH_PASS else ""),
+                              "design_ref": c["design"] + (", 9.5" if "9.5" not in c["design"] else "") + ", 9.8, 9.9, 9.10"},
             "level_note": c["note"],
             "technique": c["technique"] + (("; " + SECOND_PASS[pid][1]) if SECOND_PASS.get(pid, ("", ""))[1] else "")
             + (("; " + THIRD_PASS[pid][1]) if pid in THIRD_PASS else "")
-            + (("; " + FOURTH_PASS[pid][1]) if pid in FOURTH_PASS else ""),
+            + (("; " + FOURTH_PASS[pid][1]) if pid in FOURTH_PASS else "")
+            + (("; " + FIFTH_PASS[pid][1]) if pid in FIFTH_PASS else ""),
         })
     man = {
         "version": 1,
@@ -549,6 +551,38 @@ THIRD_PASS = {
 
 
 # clauses added in the fourth pass (DESIGN 9.9)
+FIFTH_PASS = {
+    "C02": ("Fifth pass: the conjugated system operators of the operator-form routines are Hermitian conjugates in a complex "
+            "element type; at() of the density-matrix evolutions indexes the nearest grid point; the scalar product of state "
+            "vectors and the inverse of a Hamiltonian's eigenvector matrix conjugate.",
+            "TA adjoint obligation, hand-out rules, idiom tables for conjugation"),
+    "C03": ("Fifth pass: 'done already' switches and flag-guarded fills (diagonalized mark, coupling matrix) are cleared or kept in "
+            "step by every method that rebuilds what they depend on.", "stored-result analysis: switch and helper forms"),
+    "C04": ("Fifth pass: managed properties are not shadowed in subclasses; at() of evolutions hands out owned data; in-place "
+            "transform() methods promote their storage first; __exit__ contains a failing transform; public deep copies are "
+            "registered; readers of the site-basis system-bath operators establish the basis (six open findings).",
+            "MRO scan, dominance of a promotion statement, contained-failure protocol rule, reader scan of sbi.KK"),
+    "C05": ("Fifth pass: nothing read through a units-managed property goes into its raw storage, no element is assigned "
+            "through such a property, and no units-managed object is created under the current units from internal values.",
+            "RAW/INT taint into raw storage and into constructors (dominance-aware linear order)"),
+    "C07": ("Fifth pass: where the operator form conjugates a system operator it takes the Hermitian conjugate.", "idiom table for the adjoint"),
+    "C08": ("Fifth pass: what the step-by-step mode keeps between calls is basis-managed; both modes record the rotating frame "
+            "and accept the same optional generators; apply() handles 'all' and refuses lists that are no time axis.",
+            "managed/plain operand scan, sibling agreement of entry points, parameter-kind rules"),
+    "C09": ("Fifth pass: the three bath-function classes agree on their energy parameters and on the units of shared "
+            "accessors; interpolation splines are dropped whenever the data change; the temperature refusal is demanded of "
+            "spectral densities too (two open findings).", "sibling tables and accessors, stored-result analysis with hooks"),
+    "C11": ("Fifth pass: exciton widths take the site coefficients of their own exciton.", "index-role rule of C12-I"),
+    "C12": ("Fifth pass: exciton widths weight site widths with SS[site, exciton].", "index-role rule on accumulations over sites"),
+    "C17": ("Fifth pass: a rate matrix owns a fresh floating-point array.", "allocation/ownership rule on the constructor"),
+    "C19": ("Fifth pass: every store into the 2D storage is behind a reachable shape refusal; resolution names compared are "
+            "resolutions; views are typed; adding data and taking views restore the data flag.",
+            "guard-reachability, literal-domain and save/restore typestate rules"),
+    "C20": ("Fifth pass: a helper that does not distribute records its block exactly in the outermost region; allreduce "
+            "writes back into arrays of any rank.", "branch-wise recording rule, rank-agnostic write-back rule"),
+}
+
+
 FOURTH_PASS = {
     "C01": ("Fourth pass: the operator-form action is interpreted also when the conjugated operators are obtained by axis-"
             "permuting transposes.", "TA interpretation of numpy.transpose with axes"),
